@@ -351,6 +351,49 @@ fn c04_observe(ctx: &mut Ctx, damaged: &[u8], fault: &'static str, detail: impl 
     }
 }
 
+/// the damaged frame directly after an intact copy of itself (what a cache keyed on the last
+/// delivered frame would confuse): one iterator over `valid ++ damaged`
+fn c04_after_copy(ctx: &mut Ctx, valid: &[u8], damaged: &[u8], fault: &'static str, detail: impl Fn() -> Value) {
+    ctx.eval();
+    ctx.count("damaged_frame_after_intact_copy");
+    let mut buf = valid.to_vec();
+    buf.extend_from_slice(damaged);
+    let n = valid.len();
+    let r = guard(|| {
+        let mut it = MsgFrameIter::new(&buf);
+        let mut starts: Vec<usize> = Vec::new();
+        let mut calls = 0;
+        while let Some(fr) = (&mut it).next() {
+            starts.push(it.consumed() - fr.frame_len());
+            calls += 1;
+            if calls > buf.len() + 1 {
+                break;
+            }
+        }
+        // and the stateless entry point called twice
+        let (c1, f1) = next_msg_frame(&buf);
+        let first_ok = f1.is_some() && c1 == n;
+        let second = if first_ok { next_msg_frame(&buf[c1..]).1.map(|f| f.frame_len()).map(|fl| (fl, next_msg_frame(&buf[c1..]).0)) } else { None };
+        (starts, first_ok, second.map(|(fl, c)| c - fl))
+    });
+    let rp = || json!({"kind":"valid_then_damaged","valid":hex(valid),"hex":hex(damaged),"fault":detail()});
+    match r {
+        Err(p) => ctx.panic_violation("C04.no_panic", &p, "iterating valid ++ damaged", rp()),
+        Ok((starts, first_ok, second_start)) => {
+            if starts.first() != Some(&0) || !first_ok {
+                ctx.violation("C04.intact_copy_delivered".into(), "C04.intact_copy_delivered", format!("the intact frame in front of the damaged copy was not delivered first (iterator starts {:?})", starts), rp());
+            } else if starts.contains(&n) || second_start == Some(0) {
+                ctx.violation(
+                    format!("C04.rejected|{}|delivered_after_intact_copy", fault),
+                    "C04.rejected",
+                    format!("damaged frame delivered when it directly follows an intact copy of itself; fault={} {}; iterator frame starts {:?}", fault, detail(), starts),
+                    rp(),
+                );
+            }
+        }
+    }
+}
+
 fn allowed_positions(frame_len: usize) -> Vec<usize> {
     let mut v: Vec<usize> = (8..14).collect();
     v.extend(24..frame_len * 8);
@@ -366,7 +409,17 @@ fn c04_frame(ctx: &mut Ctx, rng: &mut Rng, f: &[u8], thorough: bool, label: &str
     for &a in &pos {
         bits::flip_bit(&mut g, a);
         c04_observe(ctx, &g, "single_bit", || json!({"bits":[a]}));
+        if a < 14 || f.len() <= 64 || a % 7 == 0 {
+            c04_after_copy(ctx, f, &g, "single_bit", || json!({"bits":[a]}));
+        }
         bits::flip_bit(&mut g, a);
+    }
+    // all 63 reserved-bit patterns after an intact copy
+    for r in 1..64u8 {
+        g[1] ^= r << 2;
+        c04_observe(ctx, &g, "reserved_bits_pattern", || json!({"reserved_xor": r}));
+        c04_after_copy(ctx, f, &g, "reserved_bits_pattern", || json!({"reserved_xor": r}));
+        g[1] ^= r << 2;
     }
     // pairs: all for frames <= 64 bytes, sampled otherwise
     if f.len() <= 64 {
@@ -1162,6 +1215,10 @@ pub fn replay(p: &Params, v: &Value) -> Outcome {
     match (p.prop.as_str(), kind) {
         ("C03", "slice") => c03_check(&mut ctx, &bytes, "replay"),
         ("C04", "damaged") => c04_observe(&mut ctx, &bytes, "replay", || json!("replayed damaged frame")),
+        ("C04", "valid_then_damaged") => {
+            let valid = unhex(v["valid"].as_str().unwrap_or(""));
+            c04_after_copy(&mut ctx, &valid, &bytes, "replay", || json!("replayed"));
+        }
         ("C05", "buffer") => c05_check(&mut ctx, &bytes, 0),
         ("C06", "stream_schedule") => {
             let cuts: Vec<usize> = v["cuts"].as_array().map(|a| a.iter().filter_map(|x| x.as_u64().map(|y| y as usize)).collect()).unwrap_or_default();
